@@ -5,6 +5,8 @@ package main
 import (
 	"fmt"
 	"go/constant"
+
+	"golang.org/x/tools/go/ssa"
 	"go/types"
 	"math/big"
 	"strings"
@@ -161,6 +163,13 @@ func (fr *FnRun) eval(e *Expr, env *Env) Val {
 		if f, ok := ex.DB.Funcs[e.Name]; ok && len(f.Params) == 0 {
 			return fr.callSpec(f, nil, env)
 		}
+		// package-level variable
+		if sp := ex.P.ByPkg[fr.envPkg(env)]; sp != nil {
+			if g, ok := sp.Members[e.Name].(*ssa.Global); ok {
+				gp := fr.value(env.st, g).(*PtrV)
+				return ex.force(env.st, ex.load(env.st, gp))
+			}
+		}
 		panic(abortf("contract: unknown identifier %q", e.Name))
 	case "old":
 		return fr.eval(e.X, env.inOld())
@@ -298,6 +307,10 @@ func (fr *FnRun) selField(v Val, name string, env *Env) Val {
 	switch x := v.(type) {
 	case *PtrV:
 		if x.Obj == nil {
+			// field of the nil literal: an arbitrary value (specifications are total)
+			if x.Elem != nil {
+				return fr.selField(ex.freshVal(x.Elem, ex.fresh("nilderef")), name, env)
+			}
 			panic(abortf("contract: field %s of nil pointer", name))
 		}
 		return fr.selField(ex.load(env.st, x), name, env)
